@@ -49,6 +49,11 @@ fn has_dups(keys: &[(String, Keys)]) -> bool {
 }
 
 pub fn classify_doc(bytes: &[u8]) -> &'static str {
+    // not well-formed in the chain's JSON dialect (serde-json-wasm: no floats, integers within
+    // 128 bits, ...): whatever a lax parser makes of such bytes, they are "not JSON" here
+    if sylvia::cw_std::from_json::<sylvia::serde_value::Value>(bytes).is_err() && serde_json::from_slice::<Value>(bytes).is_ok() {
+        return "not_json";
+    }
     if let Ok(Keys(Some(top))) = serde_json::from_slice::<Keys>(bytes) {
         if has_dups(&top) {
             return "dup_top_key";
@@ -142,7 +147,10 @@ pub fn check(rec: &RunRecord, reg: &Reg, cells: &mut Cells) -> Vec<Finding> {
                         out.push(Finding::new("C03", "c03.rejected_but_ran", op.idx, format!("[doc-shape={}] {}: no part accepts {} yet handlers {:?} ran / returned {}", shape, d.cid(), d.msg(), enters.iter().map(|x| x.0).collect::<Vec<_>>(), res)));
                     }
                     // unknown top-level name => the error enumerates the supported messages
-                    if shape == "one_key" {
+                    // (only for documents that are well-formed in the chain's JSON dialect at all:
+                    // serde-json-wasm has no floats, for instance)
+                    let dialect_ok = sylvia::cw_std::from_json::<sylvia::serde_value::Value>(&bytes).is_ok();
+                    if shape == "one_key" && dialect_ok {
                         let v: Value = serde_json::from_slice(&bytes).unwrap_or(Value::Null);
                         let key = v.as_object().and_then(|o| o.keys().next().cloned()).unwrap_or_default();
                         let lists = (e.name_lists)(d.entry());
